@@ -5,6 +5,7 @@ package PVM
 // records a projection of what they returned.  No expectation is computed here.
 
 import (
+	"bytes"
 	"os"
 	"sort"
 	"testing"
@@ -33,6 +34,8 @@ func vfMaterialize(v any) []byte {
 	}
 	return out
 }
+
+var vfZeroPage [ZP]byte
 
 var vfSampleOffs = []int{0, 1, 2, 255, 256, 2047, 2048, 4093, 4094, 4095}
 
@@ -71,9 +74,11 @@ func vfProjectPages(mem Memory) []map[string]any {
 		}
 		acc := vfAcc(pg.Access)
 		nnz := 0
-		for _, b := range pg.Value {
-			if b != 0 {
-				nnz++
+		if !(len(pg.Value) == ZP && bytes.Equal(pg.Value, vfZeroPage[:])) { // fast path for the many all-zero pages
+			for _, b := range pg.Value {
+				if b != 0 {
+					nnz++
+				}
 			}
 		}
 		rec["acc"], rec["vlen"], rec["nnz"] = acc, len(pg.Value), nnz
